@@ -9,7 +9,12 @@
 //     the answer (ReqPQ, ReqDHParams, SetClientDHParams);
 //   - hsServerDHParams / hsSetClientDHAnswer: constructor ids of the types implementing the two
 //     answer interfaces (objects/types.go);
-//   - hsServiceCases: the case types of the switch in (*MTProto).makeRequest (mtproto.go).
+//   - hsServiceCases: the case types of the switch in (*MTProto).makeRequest (mtproto.go);
+//   - hsCreateConn: the skeleton of (*MTProto).CreateConnection (mtproto.go), same notation as hsChecks: what is
+//     started before the key exchange and what happens to it when the exchange fails;
+//   - hsReaderCases: the cases of `switch err` in the routine started by startReadingResponses: what the reading
+//     routine does when a read ends (nil / context.Canceled / io.EOF / anything else);
+//   - hsKeyAfterHangup: the skeleton of (*MTProto).keyAfterHangup, which the io.EOF case asks before it reconnects.
 //
 // Output: a Lean file (namespace Mtv.Gen), written only when its content changes.
 package main
@@ -244,6 +249,59 @@ func serviceCases(f *ast.File) []string {
 	return out
 }
 
+// readerCases: what the routine started by startReadingResponses does with the result of a read: the `if`
+// statements between the read and the `switch err` (entries "before switch: ..."), then the cases of the switch
+func readerCases(f *ast.File) []string {
+	fd := findFunc(f, "*MTProto", "startReadingResponses")
+	if fd == nil {
+		return []string{"missing"}
+	}
+	var out []string
+	found := false
+	ast.Inspect(fd.Body, func(n ast.Node) bool {
+		if found {
+			return false
+		}
+		var list []ast.Stmt
+		switch b := n.(type) {
+		case *ast.BlockStmt:
+			list = b.List
+		case *ast.CommClause:
+			list = b.Body
+		case *ast.CaseClause:
+			list = b.Body
+		default:
+			return true
+		}
+		for i, st := range list {
+			sw, ok := st.(*ast.SwitchStmt)
+			if !ok || sw.Tag == nil || src(sw.Tag) != "err" {
+				continue
+			}
+			found = true
+			for _, pre := range list[:i] {
+				if is, ok := pre.(*ast.IfStmt); ok {
+					out = append(out, "before switch: "+ifSummary(is))
+				}
+			}
+			for _, c := range sw.Body.List {
+				cc := c.(*ast.CaseClause)
+				head := "default"
+				if len(cc.List) > 0 {
+					head = "case " + joinExprs(cc.List)
+				}
+				out = append(out, head+": "+bodySummary(cc.Body))
+			}
+			return false
+		}
+		return true
+	})
+	if !found {
+		return []string{"no switch err"}
+	}
+	return out
+}
+
 func leanStr(s string) string {
 	var b strings.Builder
 	b.WriteByte('"')
@@ -312,6 +370,20 @@ func main() {
 	b.WriteString(leanNatList("hsSetClientDHAnswer", implementers(types, "ImplementsSetClientDHParamsAnswer")))
 	b.WriteString("\n")
 	b.WriteString(leanStrList("hsServiceCases", serviceCases(mt)))
+	b.WriteString("\n")
+	if cc := findFunc(mt, "*MTProto", "CreateConnection"); cc != nil {
+		b.WriteString(leanStrList("hsCreateConn", skeleton(cc)))
+	} else {
+		b.WriteString(leanStrList("hsCreateConn", []string{"missing"}))
+	}
+	b.WriteString("\n")
+	b.WriteString(leanStrList("hsReaderCases", readerCases(mt)))
+	b.WriteString("\n")
+	if kh := findFunc(mt, "*MTProto", "keyAfterHangup"); kh != nil {
+		b.WriteString(leanStrList("hsKeyAfterHangup", skeleton(kh)))
+	} else {
+		b.WriteString(leanStrList("hsKeyAfterHangup", []string{"missing"}))
+	}
 	b.WriteString("\nend Mtv.Gen\n")
 
 	if *out == "" {
